@@ -1302,6 +1302,26 @@ fn run_c12(r: &mut RunResult, prop: &str, idx: u64, seed: u64, rng: &mut Rng, ti
             }
             let nf = rg.below(4);
             case.faults = gen_faults(&mut rg, case.config.transport, &dry.op_llops, nf);
+            if rg.chance(1, 4) {
+                // aim one more fault at a pixel stream that directly follows a solid fill (the
+                // shape "A, B fails, A again" below needs a fault exactly there)
+                let cands: Vec<usize> = (1..case.program.len())
+                    .filter(|&j| {
+                        matches!(case.program[j - 1], Op::FillSolid { .. } | Op::Clear { .. })
+                            && matches!(case.program[j], Op::SetPixel { .. } | Op::SetPixels { .. } | Op::FillContiguous { .. } | Op::DrawIter { .. })
+                            && dry.op_llops.get(j).map_or(false, |r| r.1 > r.0)
+                    })
+                    .collect();
+                if !cands.is_empty() {
+                    let j = *rg.pick(&cands);
+                    for f in gen_faults(&mut rg, case.config.transport, &[dry.op_llops[j]], 1) {
+                        if !case.faults.iter().any(|g| g.llop == f.llop) {
+                            case.faults.push(f);
+                        }
+                    }
+                    case.faults.sort_by_key(|f| f.llop);
+                }
+            }
             // a client that does not retry at once may well issue the same call again a little
             // later: repeat a faulted non-drawing call one or two calls further on
             let mut inserts: Vec<(usize, Op)> = Vec::new();
